@@ -329,7 +329,7 @@ def run_scenario(sc, workdir):
         rt1.log.clear()
         rt1.calls = 0
         try:
-            v = real_f(rt1.Trig(), decode_value(arg2, rt1))
+            v = real_f(rt1.Trig(), decode_value(arg2, rt1), **{k: decode_value(e, rt1) for k, e in sc.get("call_kw", {}).items()})
             if inspect.isgenerator(v):
                 v = list(v)
             reg.kind, reg.value, reg.rep = "value", canon(v, rt1), stable_repr(v)
@@ -371,10 +371,11 @@ def run_scenario(sc, workdir):
             pass
         bound["self"] = target["inst"]
         try:
+            ckw = {k: decode_value(e, rt2) for k, e in sc.get("call_kw", {}).items()}
             if sc["method"]:
-                v = m_plain(target["inst"], rt2.Trig(), decode_value(arg2, rt2))
+                v = m_plain(target["inst"], rt2.Trig(), decode_value(arg2, rt2), **ckw)
             else:
-                v = m_plain(rt2.Trig(), decode_value(arg2, rt2))
+                v = m_plain(rt2.Trig(), decode_value(arg2, rt2), **ckw)
             if inspect.isgenerator(v):
                 v = list(v)
             asw.kind, asw.value, asw.rep = "value", canon(v, rt2), stable_repr(v)
@@ -392,7 +393,8 @@ def build_target(sc, rt, workdir, OV):
     ind = "    " if sc["method"] else ""
     slf = "self, " if sc["method"] else ""
     dec = "" if sc["method"] else "@ovld\n"
-    sc2["m_src"] = f"{dec}{ind}def fself({slf}v10: Trig, v11: object):\n{ind}    raise AssertionError('stub reached')"
+    sig = sc.get("stub_sig", "v10: Trig, v11: object")
+    sc2["m_src"] = f"{dec}{ind}def fself({slf}{sig}):\n{ind}    raise AssertionError('stub reached')"
     sc2["prelude"] = ""
     src = module_source(sc2)
     path = os.path.join(workdir, f"c09_t_{abs(hash(src)) % 10**12}.py")
